@@ -144,7 +144,7 @@ theorem headerL_length (cfg : Cfg) : ∀ (ls : List Bytes) (tgt : Target) (h : H
     | stop e' tgt' h' => simp
     | next tgt' h' => have := ih tgt' h'; simp; omega
 
-theorem requestLine_err {cfg : Cfg} {line : Bytes} {e : Nat} (h : requestLine cfg line = .error e) : e ≠ eNoTargets := by
+theorem requestLine_err {cfg : Cfg} {line : Bytes} {hdr : HMap} {e : Nat} (h : requestLine cfg line hdr = .error e) : e ≠ eNoTargets := by
   unfold requestLine at h
   split at h
   · cases h; decide
@@ -153,11 +153,6 @@ theorem requestLine_err {cfg : Cfg} {line : Bytes} {e : Nat} (h : requestLine cf
     · split at h
       · cases h; decide
       · cases h
-
-theorem afterPeek_length (r : List Bytes) : (afterPeek r).length ≤ r.length := by
-  cases r with
-  | nil => simp [afterPeek]
-  | cons p r' => simp only [afterPeek]; split <;> simp
 
 /-- `ErrNoTargets` comes from the skip loop running out of lines only, and leaves nothing behind;
 every other outcome consumed at least one line; no call panics -/
@@ -170,20 +165,21 @@ theorem callL_cases (cfg : Cfg) (ls : List Bytes) (h : Heap) :
   | some lr =>
     obtain ⟨line, r⟩ := lr
     have hlen := skipL_length hs
+    have hpl : (peekL r []).2.length ≤ r.length := by
+      have := peekL_length r []; simpa using this
     right
     simp only
-    cases hrq : requestLine cfg line with
+    cases hrq : requestLine cfg line (copyDefaults cfg.hdr h).1 with
     | error e =>
       refine ⟨?_, by simp, hlen⟩
       intro he; cases he; exact requestLine_err hrq rfl
     | ok tgt =>
       simp only
       split
-      · refine ⟨by simp, by simp, ?_⟩
-        have := afterPeek_length r; simp only; omega
-      · have hl := headerL_length cfg r tgt h
-        have he := headerL_err cfg r tgt h
-        generalize headerL cfg r tgt h = res at hl he
+      · exact ⟨by simp, by simp, by simp only; omega⟩
+      · have hl := headerL_length cfg (peekL r []).2 tgt (copyDefaults cfg.hdr h).2
+        have he := headerL_err cfg (peekL r []).2 tgt (copyDefaults cfg.hdr h).2
+        generalize headerL cfg (peekL r []).2 tgt (copyDefaults cfg.hdr h).2 = res at hl he
         obtain ⟨e, r3, t3, h3⟩ := res
         cases e with
         | none => exact ⟨by simp, by simp, by simp only at hl ⊢; omega⟩
